@@ -483,21 +483,13 @@ pub fn eval_unit_name(
 
                 let right_unit = right_unit
                     .into_iter()
-                    .map(|(k, v)| (k, -v))
-                    .collect::<BTreeMap<_, _>>();
+                    .map(|(k, v)| Some((k, v.checked_neg()?)))
+                    .collect::<Option<BTreeMap<_, _>>>()
+                    .ok_or_else(unit_name_power_err)?;
                 if right == Numeric::zero() || right == Numeric::Float(0.0) {
                     return Err(QueryError::generic("Division by zero".to_string()));
                 }
-                Ok((
-                    crate::algorithms::btree_merge(&left_unit, &right_unit, |a, b| {
-                        if a + b != 0 {
-                            Some(a + b)
-                        } else {
-                            None
-                        }
-                    }),
-                    &left / &right,
-                ))
+                Ok((mul_unit_names(&left_unit, &right_unit)?, &left / &right))
             }
             BinOpType::Pow => {
                 let right = eval_expr(ctx, &binop.right)?;
@@ -528,14 +520,11 @@ pub fn eval_unit_name(
                 Ok((
                     left_unit
                         .into_iter()
-                        .filter_map(|(k, v)| {
-                            let v = v * right as isize;
-                            if v != 0 {
-                                Some((k, v))
-                            } else {
-                                None
-                            }
-                        })
+                        .map(|(k, v)| Some((k, v.checked_mul(right as isize)?)))
+                        .collect::<Option<BTreeMap<_, _>>>()
+                        .ok_or_else(unit_name_power_err)?
+                        .into_iter()
+                        .filter(|&(_, v)| v != 0)
                         .collect::<BTreeMap<_, _>>(),
                     left_value.pow(right as i32),
                 ))
@@ -597,16 +586,7 @@ pub fn eval_unit_name(
                 .fold(eval_unit_name(ctx, &exprs[0]), |acc, b| {
                     let (acc, av) = acc?;
                     let (b, bv) = eval_unit_name(ctx, b)?;
-                    Ok((
-                        crate::algorithms::btree_merge(&acc, &b, |a, b| {
-                            if a + b != 0 {
-                                Some(a + b)
-                            } else {
-                                None
-                            }
-                        }),
-                        &av * &bv,
-                    ))
+                    Ok((mul_unit_names(&acc, &b)?, &av * &bv))
                 })
         }
         Expr::Of {
@@ -651,6 +631,30 @@ pub fn eval_unit_name(
         )),
         Expr::Error { ref message } => Err(QueryError::generic(message.clone())),
     }
+}
+
+fn unit_name_power_err() -> QueryError {
+    QueryError::generic("Unit exponent is too large".to_string())
+}
+
+/// Multiplies two sets of named units, by adding up their powers.
+fn mul_unit_names(
+    left: &BTreeMap<String, isize>,
+    right: &BTreeMap<String, isize>,
+) -> Result<BTreeMap<String, isize>, QueryError> {
+    let mut res = left.clone();
+    for (name, &power) in right {
+        let sum = res
+            .get(name)
+            .map_or(Some(power), |other| other.checked_add(power))
+            .ok_or_else(unit_name_power_err)?;
+        if sum != 0 {
+            res.insert(name.clone(), sum);
+        } else {
+            res.remove(name);
+        }
+    }
+    Ok(res)
 }
 
 fn conformance_err(ctx: &Context, top: &Number, bottom: &Number) -> ConformanceError {
